@@ -13,14 +13,15 @@ import RV.Base.SetList
 
   Every parser walks the document once and, for every label it meets, asks its label map
   (`W3CNTriplesParser._bnode_ids` / `SinkParser._anonymousNodes` / `RDFXMLHandler.bnode` /
-  `TriXHandler.bnode` / `HextuplesParser._bnode_ids` / `jsonld.Parser._bnodes`):
+  `TriXHandler.bnode` / `jsonld.Parser._bnodes`):
 
       node = map.get(label);  if node is None: node = BNode(); map[label] = node
 
   (`Policy.remap`).  The map lives exactly as long as one parse call.  Anonymous nodes get
   `BNode()` at their single syntactic occurrence — the same code path with a label nobody
-  else can write.  `Policy.verbatim` is the behaviour the TriX, JSON-LD and hextuples
-  parsers had before the C12 repairs: `BNode(label)` — the node id *is* the label.
+  else can write.  `Policy.verbatim` is `BNode(label)` — the node id *is* the label: what the
+  hextuples parser does (known finding C12-K1) and what the TriX and JSON-LD parsers did before
+  the C12 repairs.
 
   `BNode()` = uuid4: modelled by a supply `fresh : Nat` with the recorded assumption that a
   fresh id differs from every id handed out before and from every id present in the target
